@@ -18,3 +18,7 @@ Proof.
     rewrite in_app_iff in Hx. split; [constructor; tauto|split; [exact Hb|]].
     intros y [<-|Hy] Hy2; [tauto|eapply Hd; eassumption].
 Qed.
+
+Lemma fold_ext {A B} (f g : A -> B -> A) l acc :
+  (forall a b, f a b = g a b) -> fold_left f l acc = fold_left g l acc.
+Proof. intro H. revert acc; induction l as [|x l IH]; intro acc; cbn; [reflexivity|]. rewrite H. apply IH. Qed.
